@@ -131,6 +131,11 @@ def clause_permissions(prog, rep):
                 for a in c.args:
                     if "c" in a and "int" in a["c"]:
                         modes.setdefault(f.name, set()).add(a["c"]["int"])
+                    elif "p" in a:
+                        # the mode handed in as a parameter / named constant: every constant that can flow into it
+                        for _, k in f.depends_on(a["p"][0])[2]:
+                            if isinstance(k, dict) and isinstance(k.get("int"), int):
+                                modes.setdefault(f.name, set()).add(k["int"])
     rep.check(any(0o600 in v for v in modes.values()) and any(0o700 in v for v in modes.values()) and
               all(v <= {0o600, 0o700} for v in modes.values()), "permissions", "mode-constants",
               "files are set to 0600 and directories to 0700 (%s)" % {k: [oct(x) for x in v] for k, v in modes.items()},
@@ -189,31 +194,31 @@ def clause_permissions(prog, rep):
                   "constructor %s can succeed without the secure pre-creation step" % f.name, f.loc())
     sidecars = set(s for f in prog.nontest_fns(SQ) for _, s in f.str_consts() if s in ("-wal", "-shm", "-journal"))
     rep.check(sidecars == {"-wal", "-shm", "-journal"}, "permissions", "sidecars", "WAL, SHM and journal sidecars are chmod-ed too", "sidecar suffixes handled: %s" % sorted(sidecars))
-    # and the path built from each suffix is what gets restricted (not merely mentioned)
+    # and the path built from each suffix is what gets restricted (not merely mentioned): the chmod helper is called with — or, in an
+    # iterator chain, applied (`try_for_each(set_secure_file_permissions)`) to — paths joined from the suffixes being iterated
     chm = A.ReachCache(prog, lambda c: c.name == "set_permissions")
+    ITER = ("next", "into_iter", "iter")
     fed = False
-    for pth in sorted(perm_fns):
-        g = prog.fns[pth]
-        for c in g.live_calls():
-            if not chm.call(c):
-                continue
-            for a in c.args:
-                if "p" in a:
-                    _, calls, _ = g.depends_on(a["p"][0])
-                    names = set(x.name for x in calls)
-                    if "join" in names and ("next" in names or "into_iter" in names or "iter" in names):
-                        fed = True
-    # SQLite names its sidecars "<database file name>-wal" etc.: the name the suffix is appended to is Path::file_name (with the
-    # extension), not file_stem or anything shorter
     named = None
     for pth in sorted(perm_fns):
-        g = prog.fns[pth]
-        for c in g.live_calls():
-            if c.name == "join" and len(c.args) > 1 and "p" in c.args[1]:
-                _, calls, _ = g.depends_on(c.args[1]["p"][0])
-                names = set(x.name for x in calls)
-                if "next" in names or "into_iter" in names or "iter" in names:
-                    named = ("file_name" in names) and not ({"file_stem", "file_prefix", "with_extension"} & names)
+        root = prog.fns[pth]
+        fam = prog.family(root)
+        scope = set(g.path for g in fam)
+        for g in fam:
+            for c in g.live_calls():
+                applied = [a for a in c.args if isinstance(a.get("c"), dict) and a["c"].get("fn") in prog.fns and chm.fn(a["c"]["fn"])]
+                if chm.call(c) or applied:
+                    srcs = [a for a in c.args if "p" in a]
+                    for a in srcs:
+                        og = A.origins(prog, g, a["p"][0], scope=scope, max_frames=3)
+                        names = og.call_names()
+                        if "join" in names and (set(ITER) & names):
+                            fed = True
+                if c.name == "join" and len(c.args) > 1 and "p" in c.args[1]:
+                    og = A.origins(prog, g, c.args[1]["p"][0], scope=scope, max_frames=3)
+                    names = og.call_names()
+                    if set(ITER) & names:
+                        named = ("file_name" in names) and not ({"file_stem", "file_prefix", "with_extension"} & names)
     rep.check(named is True, "permissions", "sidecars/named-after-file", "sidecar paths are <file name><suffix> (Path::file_name)",
               "the sidecar paths are not built from the database's full file name (Path::file_name): for `x.db` the files `x.db-wal`, "
               "`x.db-shm`, `x.db-journal` are never restricted")
